@@ -1,16 +1,14 @@
 /-
-C03 for mTSP.
+C03 for mTSP (code after the upstream fixes 0b6c547 / 894138a).
 
 `minmax`: the reward read from the incrementally maintained `max_subtour_length` equals minus the
-longest closed tour of the executed solution — for every mask-confined run that ends at the moment the
-environment reports `done` (hypothesis: NO padding step).  The unrestricted statement is false of the
-code: the first depot step after `done` re-adds the way back of the last tour
-(`reward_minmax_counterexample`).
+longest closed tour of the executed solution, for EVERY finished mask-confined run — including runs
+that keep being stepped with the depot after `done` (padding while batch-mates run): the closing leg of
+the last tour enters the running maximum but is not stored in `current_length`, so a padding step
+cannot add it twice (`reward_minmax_eq_objective`).
 
-`sum`: `_get_reward` does not compute the summed tour lengths: it raises unless
-`len(actions) ∈ {1, num_loc}` and otherwise closes the tour from the last action to the first one
-instead of through the depot (`reward_sum_counterexample`); it is right exactly for the action lists
-that end with a depot step and have length `num_loc` (`reward_sum_partial`).
+`sum`: the depot is prepended to the action list, so the gather / roll / sum idiom measures the sum of
+the closed tour lengths for action lists of ANY length (`reward_sum_eq_objective`).
 -/
 import Rl4co.Proofs.Mtsp
 
@@ -56,17 +54,55 @@ theorem step_maxLen (i : Inst) (s : State) (a : Nat) :
   simp only [step, stepWith]
   split <;> split <;> omega
 
+/-- the closing leg is not stored -/
 theorem step_curLen (i : Inst) (s : State) (a : Nat) :
-    (step i s a).curLen =
-      if a = 0 then 0 else s.curLen + i.D s.cur a + (if (step i s a).done then i.D a 0 else 0) := by
-  have hd : (step i s a).done =
-      !(anyCust i.n (upd (upd s.avail a false) 0 (decide (a ≠ 0) && agentLeft i s))) := rfl
-  rw [hd]
+    (step i s a).curLen = if a = 0 then 0 else s.curLen + i.D s.cur a := by
   simp only [step, stepWith]
   by_cases h0 : a = 0
   · subst h0; simp
-  · simp only [h0, if_false, Nat.add_zero, if_true]
-    split <;> simp
+  · simp [h0]
+
+/-- length bookkeeping: at the depot the running length is 0, lengths are non-negative, and in a
+finished state the closed last tour is already in the running maximum -/
+structure InvLen (i : Inst) (s : State) : Prop where
+  atDepot   : s.cur = 0 → s.curLen = 0
+  curNonneg : 0 ≤ s.curLen
+  maxNonneg : 0 ≤ s.maxLen
+  closedIn  : s.done = true → s.curLen + i.D s.cur 0 ≤ s.maxLen
+
+theorem invLen_reset (i : Inst) : InvLen i (reset i) :=
+  ⟨fun _ => rfl, by simp [reset], by simp [reset], by simp [reset]⟩
+
+theorem invLen_step {i : Inst} (hwf : WFD i) {s : State} {a : Nat} (hp : InvLen i s) :
+    InvLen i (step i s a) := by
+  obtain ⟨hD, h00⟩ := hwf
+  have h1 := hD s.cur a
+  have hc := hp.curNonneg
+  have hmx := hp.maxNonneg
+  refine ⟨?_, ?_, ?_, ?_⟩
+  · intro h; have : a = 0 := h; rw [step_curLen, if_pos this]
+  · rw [step_curLen]; split <;> omega
+  · rw [step_maxLen]; omega
+  · intro hd
+    rw [step_maxLen, step_curLen, step_cur, hd]
+    simp only [if_true]
+    by_cases h0 : a = 0
+    · subst h0; simp only [if_true, h00]; omega
+    · simp only [h0, if_false]; omega
+
+theorem inv_both_of_reach {i : Inst} (hwf : WFD i) (hn : 1 ≤ i.n) (hm : 1 ≤ i.m) {s : State}
+    (h : Reach env i s) : Inv i s ∧ InvLen i s :=
+  Rl4co.inv_of_reach (e := env) (Inv := fun s => Inv i s ∧ InvLen i s)
+    ⟨inv_reset i hn hm, invLen_reset i⟩
+    (fun _ _ hh ha hmk => ⟨inv_step hh.1 ha hmk, invLen_step hwf hh.2⟩) h
+
+/-- a depot step from a finished state leaves the running maximum alone -/
+theorem maxLen_pad {i : Inst} (hwf : WFD i) {s : State} (hi : Inv i s) (hp : InvLen i s)
+    (hd : s.done = true) : (step i s 0).maxLen = s.maxLen := by
+  rw [step_maxLen, done_step_of_done hi hd]
+  have := hp.closedIn hd
+  simp only [if_true, hwf.2]
+  omega
 
 /-- The refinement, generalised over the start state: from an unfinished state `s`, along a run that
 stops at the first finished state, `max_subtour_length` ends up as the maximum of its old value, of
@@ -97,7 +133,6 @@ theorem maxLen_of_run (i : Inst) (hwf : WFD i) {s s' : State} {as : List Nat}
       subst has hss
       have h0 : a ≠ 0 := by
         intro h0; subst h0
-        -- a depot step does not change the customers, so it cannot finish an unfinished episode
         obtain ⟨j, hj1, hj2, hj⟩ := hi.someCust hs
         have := step_done_true hd1 j hj1 hj2
         rw [step_avail_cust i s 0 j (by omega)] at this
@@ -111,7 +146,7 @@ theorem maxLen_of_run (i : Inst) (hwf : WFD i) {s s' : State} {as : List Nat}
       omega
     | false =>
       have hc' : 0 ≤ (step i s a).curLen := by
-        rw [step_curLen, hd1]; have := hD s.cur a; split <;> simp <;> omega
+        rw [step_curLen]; have := hD s.cur a; split <;> omega
       have ih := ih hd1 hs' hc' hi' r1 rs1 h1
       rw [step_maxLen, step_curLen, hd1] at ih
       simp only [step_cur, Bool.false_eq_true, if_false, Int.add_zero] at ih
@@ -132,92 +167,107 @@ theorem maxLen_of_run (i : Inst) (hwf : WFD i) {s s' : State} {as : List Nat}
         have := hD s.cur a
         omega
 
-/-- **C03 (mTSP, minmax), no padding.** -/
+/-- a run that ends finished = a run to the first finished state followed by steps from finished states -/
+theorem run_split {I S : Type} (e : Env I S) (i : I) {s s' : S} {as : List Nat}
+    (h : Run e i s as s') (hd : e.done i s' = true) :
+    ∃ as1 as2 s1, as = as1 ++ as2 ∧ RunND e i s as1 s1 ∧ e.done i s1 = true ∧ Run e i s1 as2 s' := by
+  induction h with
+  | nil s => exact ⟨[], [], s, rfl, RunND.nil s, hd, Run.nil s⟩
+  | @cons s s' a as ha hm hrest ih =>
+    cases hds : e.done i s with
+    | true => exact ⟨[], a :: as, s, rfl, RunND.nil s, hds, Run.cons ha hm hrest⟩
+    | false =>
+      obtain ⟨as1, as2, s1, h1, h2, h3, h4⟩ := ih hd
+      exact ⟨a :: as1, as2, s1, by simp [h1], RunND.cons hds ha hm h2, h3, h4⟩
+
+theorem routes_snoc_zero (as : List Nat) : routes (as ++ [0]) = routes as ++ [[]] := by
+  induction as with
+  | nil => simp [routes]
+  | cons a as ih =>
+    by_cases h0 : a = 0
+    · subst h0; simp [routes, ih]
+    · obtain ⟨r, rs, hr⟩ := routes_cons_exists as
+      simp only [List.cons_append, routes, h0, if_false, ih, hr]
+
+theorem maxList_snoc_zero (l : List Int) : maxList (l ++ [0]) = maxList l := by
+  induction l with
+  | nil => simp [maxList]
+  | cons x xs ih => simp only [List.cons_append, maxList, ih]
+
+/-- a trailing depot visit (padding) does not change the objective -/
+theorem objMinmax_snoc_zero (i : Inst) (as : List Nat) : objMinmax i (as ++ [0]) = objMinmax i as := by
+  simp only [objMinmax, routes_snoc_zero, List.map_append, List.map_cons, List.map_nil]
+  have : routeLen i.D [] = 0 := by simp [routeLen]
+  rw [this, maxList_snoc_zero]
+
+/-- **C03 (mTSP, minmax): reward = −(longest closed tour) for EVERY finished mask-confined run,
+padding included.** -/
 theorem reward_minmax_eq_objective (i : Inst) (hwf : WFD i) (hm : 1 ≤ i.m) {as : List Nat} {s : State}
-    (h : RunND env i (env.reset i) as s) (hd : env.done i s = true) :
+    (h : Run env i (env.reset i) as s) (hd : env.done i s = true) :
     rewardMinmax s = - objMinmax i as := by
-  have hd' : s.done = true := hd
-  obtain ⟨r, rs, hr⟩ := routes_cons_exists as
+  obtain ⟨as1, as2, s1, hsplit, hnd, hd1, hrest⟩ := run_split env i h hd
+  have hd1' : s1.done = true := hd1
   -- a finished state was reached, so there is at least one customer
   have hn : 1 ≤ i.n := by
-    cases h with
-    | nil _ => simp [env, reset] at hd'
+    cases hnd with
+    | nil _ => simp [env, reset] at hd1'
     | cons _ ha hmk _ =>
-      simp only [env] at ha hmk
       have : (reset i).avail _ = true := hmk
       simp [reset] at this
+      have ha' : _ < i.n + 1 := ha
       omega
-  have := maxLen_of_run i hwf h rfl hd' (by simp [env, reset]) (inv_reset i hn hm) r rs hr
-  simp only [rewardMinmax, objMinmax, hr, List.map_cons, maxList, this]
-  rw [routeLen_eq_tourLen i.D hwf.2]
-  have hmap : rs.map (routeLen i.D) = rs.map (tourLen i.D) :=
-    List.map_congr_left (fun x _ => routeLen_eq_tourLen i.D hwf.2 x)
-  rw [hmap]
-  have h1 := maxList_nonneg (rs.map (tourLen i.D))
-  simp only [env, reset, tourLen, Int.zero_add]
-  omega
+  -- part 1: up to the first finished state
+  obtain ⟨r, rs, hr⟩ := routes_cons_exists as1
+  have h1 := maxLen_of_run i hwf hnd rfl hd1' (by simp [env, reset]) (inv_reset i hn hm) r rs hr
+  have hobj1 : s1.maxLen = objMinmax i as1 := by
+    simp only [objMinmax, hr, List.map_cons, maxList, h1]
+    rw [routeLen_eq_tourLen i.D hwf.2]
+    have hmap : rs.map (routeLen i.D) = rs.map (tourLen i.D) :=
+      List.map_congr_left (fun x _ => routeLen_eq_tourLen i.D hwf.2 x)
+    rw [hmap]
+    have := maxList_nonneg (rs.map (tourLen i.D))
+    simp only [env, reset, tourLen, Int.zero_add]
+    omega
+  -- part 2: padding steps keep both sides
+  have hreach1 : Reach env i s1 := ⟨as1, hnd.run⟩
+  have hpad : ∀ {t t' : State} {bs : List Nat}, Run env i t bs t' → ∀ hist, Reach env i t →
+      t.done = true → t'.maxLen = t.maxLen ∧ objMinmax i (hist ++ bs) = objMinmax i hist := by
+    intro t t' bs hrun
+    induction hrun with
+    | nil t => intro hist _ _; simp
+    | @cons t t' b bs hb hmk hrest' ih =>
+      intro hist hreach hdt
+      obtain ⟨hit, hpt⟩ := inv_both_of_reach hwf hn hm hreach
+      have hb0 := mask_of_done hit hdt hb hmk
+      subst hb0
+      have hreach' : Reach env i (env.step i t 0) := by
+        obtain ⟨pre, hpre⟩ := hreach
+        exact ⟨pre ++ [0], hpre.snoc hb hmk⟩
+      obtain ⟨e1, e2⟩ := ih (hist ++ [0]) hreach' (done_step_of_done hit hdt)
+      have hmx : (env.step i t 0).maxLen = t.maxLen := maxLen_pad hwf hit hpt hdt
+      refine ⟨by rw [e1, hmx], ?_⟩
+      have : hist ++ 0 :: bs = hist ++ [0] ++ bs := by simp
+      rw [this, e2, objMinmax_snoc_zero]
+  obtain ⟨e1, e2⟩ := hpad hrest as1 hreach1 hd1'
+  show - s.maxLen = _
+  rw [e1, hobj1, hsplit, e2]
 
-/-- The statement one would like: for EVERY finished mask-confined run (padding included). -/
-def reward_minmax_statement : Prop :=
-  ∀ (i : Inst) (as : List Nat) (s : State), WFD i → 1 ≤ i.m →
-    Run env i (env.reset i) as s → env.done i s = true → rewardMinmax s = - objMinmax i as
+/-- **C03 (mTSP, sum): reward = −(summed closed tour lengths) for EVERY action list.** -/
+theorem reward_sum_eq_objective (i : Inst) (h00 : i.D 0 0 = 0) (as : List Nat) :
+    rewardSum i as = - objSum i as := by
+  simp only [rewardSum, objSum, rollLen_eq_closedLen, closedLen]
+  rw [closed_eq_routesLen i.D h00 as]
 
-def cexInst : Inst := ⟨1, 1, fun a b => if a = b then 0 else 1⟩
+/-- the instance on which the unfixed code failed: one customer at distance 1 -/
+def exInst : Inst := ⟨1, 1, fun a b => if a = b then 0 else 1⟩
 
-/-- One padding step after `done` re-adds the way back: reward −3, longest tour 2. -/
-theorem reward_minmax_counterexample : ¬ reward_minmax_statement := by
-  intro h
-  have := h cexInst [1, 0] (exec env cexInst (env.reset cexInst) [1, 0])
-    ⟨by intro a b; simp only [cexInst]; split <;> omega, rfl⟩ (by decide)
-    ((run_iff_admitted _ _ _ _ _).2 ⟨by decide, rfl⟩) (by decide)
-  revert this; decide
-
-/-! ### `cost_type = "sum"` -/
-
-def reward_sum_statement : Prop :=
-  ∀ (i : Inst) (as : List Nat) (s : State), WFD i → 1 ≤ i.m →
-    Run env i (env.reset i) as s → env.done i s = true → rewardSum i as = some (- objSum i as)
-
-def cexInst2 : Inst := ⟨2, 2, fun a b => if a ≤ b then (b - a : Nat) else (a - b : Nat)⟩
-
-/-- `[1,0,2]` on a line: the code returns −(1+2+1) = −4, the two tours have total length 2 + 4 = 6
-(and for `[1,2]` with one agent the call raises). -/
-theorem reward_sum_counterexample : ¬ reward_sum_statement := by
-  intro h
-  have := h cexInst2 [1, 0, 2] (exec env cexInst2 (env.reset cexInst2) [1, 0, 2])
-    ⟨by intro a b; simp only [cexInst2]; split <;> omega, rfl⟩ (by decide)
-    ((run_iff_admitted _ _ _ _ _).2 ⟨by decide, rfl⟩) (by decide)
-  revert this; decide
-
-/-- The sum-mode reward is right for action lists of length `num_loc` that end with a depot step
-(a single tour followed by exactly one padding step). -/
-theorem reward_sum_partial (i : Inst) (h00 : i.D 0 0 = 0) (c : Nat) (cs : List Nat)
-    (hlen : (c :: cs).length = i.n) :
-    rewardSum i (c :: cs ++ [0]) = some (- objSum i (c :: cs ++ [0])) := by
-  have hl : (c :: cs ++ [0]).length = i.n + 1 := by simp at hlen ⊢; omega
-  simp only [rewardSum, hl, if_true, objSum]
-  rw [rollLen_eq_closedLen, ← closed_eq_routesLen i.D h00]
-  simp only [closedLen, List.cons_append, pathLen_cons_cons]
-  have e1 : c :: (cs ++ [0] ++ [c]) = (c :: (cs ++ [0])) ++ [c] := by simp
-  have e2 : c :: (cs ++ [0] ++ [0]) = (c :: (cs ++ [0])) ++ [0] := by simp
-  rw [e1, e2, pathLen_append_singleton, pathLen_append_singleton]
-  have hl : (c :: (cs ++ [0])).getLast (by simp) = 0 := by
-    rw [List.getLast_cons (by simp)]; simp
-  rw [hl, h00]
-  congr 1
-  omega
-
-/-- Non-vacuity of the no-padding theorem: `[2,0,3,1]` with 2 agents is such a run. -/
-example : RunND env ⟨3, 2, fun a b => if a = b then 0 else 1⟩ (env.reset ⟨3, 2, fun a b => if a = b then 0 else 1⟩)
-    [2, 0, 3, 1] (exec env ⟨3, 2, fun a b => if a = b then 0 else 1⟩ (env.reset ⟨3, 2, fun a b => if a = b then 0 else 1⟩) [2, 0, 3, 1]) := by
-  refine RunND.cons (by decide) (by decide) (by decide) ?_
-  refine RunND.cons (by decide) (by decide) (by decide) ?_
-  refine RunND.cons (by decide) (by decide) (by decide) ?_
-  refine RunND.cons (by decide) (by decide) (by decide) ?_
-  exact RunND.nil _
-example : env.done ⟨3, 2, fun a b => if a = b then 0 else 1⟩
-    (exec env ⟨3, 2, fun a b => if a = b then 0 else 1⟩ (env.reset ⟨3, 2, fun a b => if a = b then 0 else 1⟩) [2, 0, 3, 1]) = true := by
+/-- Non-vacuity: a finished run WITH a padding step (the regression witness of 0b6c547: reward −2,
+not −3), and the two-tour list on which the unfixed `sum` reward was wrong (regression of 894138a). -/
+example : Run env exInst (env.reset exInst) [1, 0] (exec env exInst (env.reset exInst) [1, 0]) ∧
+    env.done exInst (exec env exInst (env.reset exInst) [1, 0]) = true ∧
+    rewardMinmax (exec env exInst (env.reset exInst) [1, 0]) = -2 :=
+  ⟨(run_iff_admitted _ _ _ _ _).2 ⟨by decide, rfl⟩, by decide, by decide⟩
+example : rewardSum ⟨2, 2, fun a b => if a ≤ b then (b - a : Nat) else (a - b : Nat)⟩ [1, 0, 2] = -6 := by
   decide
-example : rewardSum ⟨2, 1, fun a b => if a = b then 0 else 1⟩ [1, 2, 0] = some (-3) := by decide
 
 end Rl4co.Mtsp
